@@ -124,7 +124,7 @@ func (r *Run) neverFails(f *types.Func) bool {
 
 func NewRun(p *Program, prop, tier string, seed int) *Run {
 	return &Run{P: p, E: NewEngine(p), Prop: prop, Tier: tier, Seed: seed, Start: time.Now(), RuleSites: map[string]int{},
-		Funcs: map[string]bool{}, seenOb: map[string]bool{}}
+		Funcs: map[string]bool{}, seenOb: map[string]bool{}, feasible: map[*Func][]Path{}, neverErr: map[*types.Func]int{}}
 }
 
 // Check records an obligation. Duplicate (rule, site, ok) triples are merged.
@@ -379,6 +379,11 @@ func (r *Run) Finish(verifDir, outBase string, explanation string) int {
 		"wall_s":      time.Since(r.Start).Seconds(),
 		"violations":  len(viol),
 	}
+	if strings.TrimSpace(explanation) == "" {
+		explanation = "Static analysis of /repo's working tree (parsed, type-checked, lowered to control-flow paths): rules " + strings.Join(rules, ", ") +
+			"; every count is measured on this run. Obligations are rule instances at sites of the current sources; a failing obligation names file:line, rule and construct."
+	}
+	ev["coverage"].(map[string]any)["explanation"] = explanation
 	os.MkdirAll(filepath.Join(outBase, "evidence"), 0o755)
 	b, _ := json.MarshalIndent(ev, "", " ")
 	if err := os.WriteFile(filepath.Join(outBase, "evidence", r.Prop+".json"), b, 0o644); err != nil {
@@ -392,4 +397,14 @@ func (r *Run) Finish(verifDir, outBase string, explanation string) int {
 		return 2
 	}
 	return 0
+}
+
+// broken: anchors could not be resolved or the loader failed; rules cannot run meaningfully.
+func (r *Run) broken() bool {
+	for _, u := range r.Undecided {
+		if strings.HasPrefix(u, "anchors:") || strings.HasPrefix(u, "loader:") {
+			return true
+		}
+	}
+	return false
 }
